@@ -1,1 +1,93 @@
-From LV Require Import Circuit.Model.
+(* C07 — property theorems (statements only; proofs in Proofs.v).
+   `run init ins` executes ANY list of phase-step inputs over any number of
+   thread ids: every interleaving of the memory/disk/memory phases of
+   concurrent CommitCircuits / OpenCircuits / TrimOpenCircuits / CloseCircuit /
+   FailCircuit / DeleteCircuits calls, with every transaction succeeding or
+   failing, and restarts at any point. *)
+From stdpp Require Import gmap.
+From LV Require Import Circuit.Model Circuit.Proofs.
+Local Open Scope N_scope.
+
+(* Between two CommitCircuits memory phases that both decide Add for the same
+   incoming key there is a step that removed the key from the pending set
+   (DeleteCircuits' memory phase, or the rollback of a failed commit of that
+   key) or a restart.  No bound on the run, the batches or the thread count. *)
+Theorem C07_add_once : forall ins c' tr k pre e1 mid e2 post,
+  run init ins = (c', tr) ->
+  tr = pre ++ e1 :: mid ++ e2 :: post ->
+  k ∈ ev_add_decided e1 -> k ∈ ev_add_decided e2 ->
+  exists x, x ∈ mid /\ (k ∈ ev_removed x \/ ev_restart x = true).
+Proof. exact add_once. Qed.
+
+(* ... and the Adds a call returns are exactly the keys its memory phase
+   decided, returned only after the batch write succeeded. *)
+Theorem C07_adds_returned_are_decided : forall c t cr adds drops fails err c',
+  c_thr c !! t = Some (KCommitPost true cr) ->
+  step c (IMem t) = (c', OCommit adds drops fails err) ->
+  adds = keys_of (c_adds cr) /\ err = false.
+Proof. exact adds_returned_are_decided. Qed.
+
+(* Between two successful CloseCircuit/FailCircuit calls answering the same
+   incoming key there is a DeleteCircuits memory phase that removed the key
+   (or a commit rollback of it) or a restart: closed-set arbitration, under
+   every interleaving. *)
+Theorem C07_one_response_per_run : forall ins c' tr k pre e1 mid e2 post,
+  run init ins = (c', tr) ->
+  tr = pre ++ e1 :: mid ++ e2 :: post ->
+  ev_responded e1 = Some k -> ev_responded e2 = Some k ->
+  exists x, x ∈ mid /\ (k ∈ ev_removed x \/ ev_restart x = true).
+Proof. exact one_response_per_run. Qed.
+
+(* Restart, for ANY disk contents and any closed/active/resolution-message
+   configuration.  PARTIAL: the pending side, the purge rule for circuits and
+   the Fail-not-Add decision are proved; the characterisation of the keystones
+   that survive (opened = disk keystones below NextLocalHtlcIndex, under the
+   contiguity hypothesis) is exercised by the correspondence run only. *)
+Theorem C07_restart_exact_partial : forall rc d nxt m' d',
+  restart rc d nxt = (m', d') ->
+  (* nothing is closing after a restart *)
+  closed m' = ∅ /\
+  (* durable circuits = old ones minus the purged ones ... *)
+  (forall k pay, d_adds d' !! k = Some pay <-> d_adds d !! k = Some pay /\ purged_add rc d k = false) /\
+  (* ... where purged means: incoming channel fully closed, or some keystone of it
+     is purged (its incoming or outgoing channel fully closed, unless an on-chain
+     resolution for the outgoing key still awaits delivery) *)
+  (forall k, purged_add rc d k = true <->
+     is_closed (closed_set rc) k.1 = true \/
+     exists o, d_ks d !! o = Some k /\ purge_ks_pred rc (o, k) = true) /\
+  (* memory knows exactly the durable circuits *)
+  (forall k id, pending m' !! k = Some id <-> id = inr k /\ exists pay, d_adds d' !! k = Some pay) /\
+  (forall k id o, pending m' !! k = Some id -> get_obj m' id = Some o ->
+     o_inc o = k /\ o_loaded o = true /\ d_adds d' !! k = Some (o_pay o)) /\
+  (* a re-forward of a restored circuit is never an Add: Drop while it has a
+     keystone, FAIL once its keystone was rolled back *)
+  (forall k, pending m' !! k <> None ->
+     exists o, found_obj m' k = Some o /\ o_loaded o = true /\
+       classify (Some o) = match o_out o with Some _ => ADrop | None => AFail end).
+Proof.
+  intros rc d nxt m' d' H.
+  destruct (restart_pending _ _ _ _ _ H) as (A & B & C & D).
+  split; [exact A|]. split; [exact B|]. split; [intros k; apply purged_add_spec|].
+  split; [exact C|]. split; [exact D|].
+  intros k Hk. eapply restart_classify; eauto.
+Qed.
+
+(* A failed transaction of CommitCircuits / OpenCircuits leaves memory (all
+   maps; no existing object touched), disk and the caller set as before the
+   call, from ANY state.  PARTIAL: the same statement for DeleteCircuits (which
+   needs the well-formedness wf_out of the state) is checked on the
+   implementation by the harness but not proved; TrimOpenCircuits has no
+   rollback in the code (see Examples.trim_failure_not_rolled_back). *)
+Theorem C07_rollback_partial : forall c t,
+  c_thr c !! t = None ->
+  (forall cs c1 k1, step c (ICall t (CCommit cs)) = (c1, OYield k1) ->
+     let c3 := (step (step c1 (IDisk t false)).1 (IMem t)).1 in
+     mem_same (c_mem c) (c_mem c3) /\ c_disk c3 = c_disk c /\ c_thr c3 = c_thr c) /\
+  (forall kss c1 k1, step c (ICall t (COpen kss)) = (c1, OYield k1) ->
+     let c3 := (step (step c1 (IDisk t false)).1 (IMem t)).1 in
+     c_mem c3 = c_mem c /\ c_disk c3 = c_disk c /\ c_thr c3 = c_thr c).
+Proof.
+  intros c t Ht. split.
+  - intros cs c1 k1 H. exact (rollback_commit_cfg c t cs c1 k1 Ht H).
+  - intros kss c1 k1 H. exact (rollback_open_cfg c t kss c1 k1 Ht H).
+Qed.
